@@ -85,7 +85,7 @@ CHAIN_ATOMS = {
     "quick": {2: [None, "Str", -1.5, []], 3: ["Str", 0]},
     "thorough": {2: ATOMS, 3: ATOMS},
 }
-LIT_ATOMS = {"quick": [None, "Str", -1.5, []], "thorough": ATOMS}  # literal source: depth <= 1 over these ...
+LIT_ATOMS = {"quick": ["Str", -1.5, []], "thorough": ATOMS}  # literal source: depth <= 1 over these ...
 LIT_CHAIN_ATOMS = {"quick": [], "thorough": [None, "Str", 0, []]}  # ... plus 2-frame chains ending in these
 
 
@@ -165,11 +165,14 @@ def lit_docs_for(tier):
     return _dedupe(list(atoms) + _containers(atoms) + _chains(frames, 2, LIT_CHAIN_ATOMS[tier]))
 
 
+CTOR_ATOMS = {"quick": [None, True, 0, -1.5, "Str", [], {}], "thorough": ATOMS}
+CTOR_CHAIN_ATOMS = {"quick": [None, "Str"], "thorough": ATOMS}
+
+
 def ctor_docs_for(tier):
     """constructor documents: the containers of depth <= 1 over the atoms and the 2-frame chains"""
-    atoms = ATOMS if tier == "thorough" else ATOMS_QUICK
     frames = FRAMES if tier == "thorough" else FRAMES_QUICK
-    return _dedupe([[], {}] + _containers(atoms) + _chains(frames, 2, CHAIN_ATOMS[tier][2]))
+    return _dedupe([[], {}] + _containers(CTOR_ATOMS[tier]) + _chains(frames, 2, CTOR_CHAIN_ATOMS[tier]))
 
 
 def paths_for(tier):
@@ -661,14 +664,16 @@ def _set_excluded(w, excl):
 
 
 def _by_id(rows):
+    """{row id: tuple of the values fetched for it, in result order}"""
     got = {}
     for (i,), v in rows:
         got.setdefault(i, []).append(v)
-    return got
+    return {i: tuple(v) for i, v in got.items()}
 
 
 def _eval_on_rows(w, acc, exprs, kc, ids, ts):
-    """-> per expression {id: ('ok', [values]) | ('err', cls, msg)} for the rows `ids` (all of kind kc, not excluded)"""
+    """-> per expression a function row id -> ('ok', (values...)) | ('err', cls, msg), for the rows `ids` (all of
+    kind kc and not excluded), as ('rows', {id: values}) | ('err', r) | ('byvalue', {tv: ('rows', ..) | ('err', r)})"""
     cur = w["cur"]
     tail = f" from j where id in (select id from kk where k = {kc} and not x)"
     res = []
@@ -677,8 +682,7 @@ def _eval_on_rows(w, acc, exprs, kc, ids, ts):
     out = []
     for e, r in zip(exprs, res):
         if r[0] == "ok":
-            got = _by_id(r[1])
-            out.append({i: ("ok", got.get(i, [])) for i in ids})
+            out.append(("rows", _by_id(r[1])))
             continue
         tvals = sorted({ts[i] for i in ids})
         if len(tvals) > 1:
@@ -689,13 +693,10 @@ def _eval_on_rows(w, acc, exprs, kc, ids, ts):
                 d = {}
                 for tv in tvals:
                     rr = run_exprs(cur, acc, [e], ["id"], f" from j where id in (select id from kk where k = {kc} and t = {tv} and not x)")[0]  # fmt: skip
-                    sub = [i for i in ids if ts[i] == tv]
-                    got = _by_id(rr[1]) if rr[0] == "ok" else None
-                    for i in sub:
-                        d[i] = ("ok", got.get(i, [])) if got is not None else rr
-                out.append(d)
+                    d[tv] = ("rows", _by_id(rr[1])) if rr[0] == "ok" else ("err", rr)
+                out.append(("byvalue", d))
                 continue
-        out.append({i: r for i in ids})
+        out.append(("err", r))
     return out
 
 
@@ -704,7 +705,15 @@ def _judge(mode, exp, r):
 
 
 def _observed(r):
-    return core.jsonable(r if r[0] == "err" else r[1])
+    return core.jsonable(r if r[0] == "err" else list(r[1]))
+
+
+def _hashable(vals):
+    try:
+        hash(vals)
+        return vals
+    except TypeError:
+        return ("\x00repr", repr(vals))
 
 
 def work_col(item, acc, tier):
@@ -722,7 +731,8 @@ def work_col(item, acc, tier):
     rends = renderings(source, steps, syntaxes)
     for sy, xsql, form in rends:
         full = sy == "colon" and source == "v"
-        rowfeat = [shift_feature(_source_doc(d, source), steps, form) for d in docs]
+        fc = formclass(form)
+        rowfeat = [shift_feature(_source_doc(d, source), steps, form) for d in docs] if fc == "bb.I" else None
         for kc in sorted(by_kind):
             ids = by_kind[kc]
             kind = J.KINDS[kc]
@@ -741,39 +751,54 @@ def work_col(item, acc, tier):
                     acc.count("shadowed_cells", len(ex) * len(gops))
                     if not live:
                         continue
+                    # rows with the same navigated value (and the same row feature) are judged together
+                    cells: dict = {}
+                    for i in live:
+                        cells.setdefault((ts[i], rowfeat[i] if rowfeat else None), []).append(i)
                     _set_excluded(w, ex)
                     exprs = [OPS[o]["tpl"].format(x=xsql) for o in gops]
                     res = _eval_on_rows(w, acc, exprs, kc, live, ts)
-                    for o, e, per_id in zip(gops, exprs, res):
+                    for o, e, rs in zip(gops, exprs, res):
                         op = OPS[o]
                         bad = set()
                         sig = []
                         stats: dict = {}  # row feature -> [n, nfail, example]
-                        for i in live:
-                            exp = expected(o, targets[i])
-                            r = per_id[i]
-                            sig.append((i, r[0], r[1]))
+                        for (tv, rf), cids in sorted(cells.items(), key=lambda kv: (kv[0][0], str(kv[0][1]))):
+                            tgt = targets[cids[0]]
+                            exp = expected(o, tgt)
                             if exp is not None and exp is not J.MISSING:
-                                acc.nontrivial((source, sy, steps, o, canon(targets[i])))
-                            st = stats.setdefault(rowfeat[i], [0, 0, None])
-                            st[0] += 1
-                            if not _judge(op["mode"], exp, r):
-                                st[1] += 1
-                                bad.add(i)
-                                if st[2] is None:
-                                    sql1 = f"select {e} from j"
-                                    st[2] = (
-                                        {"sql": sql1, "document": docs[i], "expected": repr(exp), "observed": _observed(r)},
-                                        _replay_payload(load_sql([docs[i]]), sql1, enc(op["mode"], exp)),
-                                    )
+                                acc.nontrivial((source, sy, steps, o, canon(tgt)))
+                            one = rs[1].get(tv) if rs[0] == "byvalue" else rs
+                            st = stats.setdefault(rf, [0, 0, None])
+                            st[0] += len(cids)
+                            if one[0] == "err":
+                                observed = {None: (one[1], cids)}
+                            else:
+                                observed = {}
+                                got = one[1]
+                                for i in cids:
+                                    v = got.get(i, ())
+                                    observed.setdefault(_hashable(v), (("ok", v), []))[1].append(i)
+                            for okey in sorted(observed, key=repr):
+                                r, oids = observed[okey]
+                                good = _judge(op["mode"], exp, r)
+                                sig.append((tv, rf, r[0], r[1], len(oids), good))
+                                if not good:
+                                    st[1] += len(oids)
+                                    bad.update(oids)
+                                    if st[2] is None:
+                                        sql1 = f"select {e} from j"
+                                        st[2] = (
+                                            {"sql": sql1, "document": docs[oids[0]], "expected": repr(exp), "observed": _observed(r)},
+                                            _replay_payload(load_sql([docs[oids[0]]]), sql1, enc(op["mode"], exp)),
+                                        )
                         failed[o] = frozenset(bad)
                         acc.count("evaluations", len(live))
                         acc.obs((source, steps, sy, kind, o, sig))
                         acc.outcome((o, kind, form, "fail" if bad else "ok"))
                         for rf in sorted(stats, key=str):
                             n, nfail, example = stats[rf]
-                            feats = {"source": source, "syntax": sy, "form": form, "fc": formclass(form), "shape": shape_of(steps),
-                                     "op": o, "kind": kind}  # fmt: skip
+                            feats = {"source": source, "syntax": sy, "form": form, "fc": fc, "shape": shape_of(steps), "op": o, "kind": kind}
                             if rf is not None:
                                 feats["shift"] = rf
                             _record(acc, clause_of(o, t0), feats, n, nfail, example)
@@ -1009,7 +1034,7 @@ def ctor_expected(doc, style):
 
 def _sqlkind(x):
     k = J.kind_of(x)
-    return {"float": "dec", "earr": "arr", "eobj": "obj"}.get(k, k)
+    return {"float": "dec", "eobj": "obj"}.get(k, k)
 
 
 def _arrays(d):
@@ -1022,20 +1047,22 @@ def _arrays(d):
             yield from _arrays(x)
 
 
-def _objects(d, depth=0):
+def _objects(d, inobj=0):
+    """(object, number of OBJECT_CONSTRUCT calls it is an argument of, directly or through arrays)"""
     if isinstance(d, dict):
-        yield d, depth
+        yield d, inobj
         for x in d.values():
-            yield from _objects(x, depth + 1)
+            yield from _objects(x, inobj + 1)
     elif isinstance(d, list):
         for x in d:
-            yield from _objects(x, depth + 1)
+            yield from _objects(x, inobj)
 
 
 def ctor_feats(doc, style):
     """input shape of a constructor call: the top constructor; `elems` = SQL kinds of the elements of the (first) array
-    holding more than one kind, else 'uniform'/'none'; where NULL-valued pairs sit (top call / nested call); whether
-    some OBJECT_CONSTRUCT call ends up with no pair at all (no argument, or -- without KEEP_NULL -- only NULL values)"""
+    holding more than one kind, else 'uniform'/'none'; where NULL-valued pairs sit (in a call that is not an argument of
+    another OBJECT_CONSTRUCT = top / in one that is = nested); whether some OBJECT_CONSTRUCT call ends up with no pair
+    at all (no argument, or -- without KEEP_NULL -- only NULL values)"""
     top = "array" if isinstance(doc, list) else "object"
     elems = "none"
     for a in _arrays(doc):
@@ -1051,18 +1078,19 @@ def ctor_feats(doc, style):
         nopair = any(all(v is None for v in o.values()) for o, _dp in _objects(doc))
     else:
         nopair = any(not o for o, _dp in _objects(doc))
-    objin = any(dp > 0 for _o, dp in _objects(doc))
     return {"top": top, "elems": elems, "nullelem": "yes" if nullelem else "no",
             "nullpair": "top+nested" if nulltop and nullnested else "top" if nulltop else "nested" if nullnested else "no",
-            "nopair": "yes" if nopair else "no", "objin": "yes" if objin else "no"}  # fmt: skip
+            "nopair": "yes" if nopair else "no"}  # fmt: skip
 
 
 def ctor_cause(cf, style):
     """the one constructor-shape feature used in class keys, by priority: an OBJECT_CONSTRUCT left without any pair;
-    an array whose elements have different SQL types (integers with decimals apart: 'dec+int'); NULL-valued pairs in
-    a nested / the top OBJECT_CONSTRUCT; else plain"""
-    if cf["nopair"] == "yes":
+    an array whose elements have different SQL types (apart: integers with decimals 'dec+int', an empty array with an
+    object 'earr+obj'); NULL-valued pairs in an OBJECT_CONSTRUCT that is / is not an argument of another one; else plain"""
+    if cf["nopair"] == "yes" and style == "oc":
         return "nopair"
+    if cf["elems"] == "earr+obj":
+        return "earr+obj"
     if cf["elems"] not in ("none", "uniform", "dec+int"):
         return "hetero"
     if cf["nullpair"] in ("nested", "top+nested"):
@@ -1078,8 +1106,9 @@ def ctor_cells(doc, style):
     cf = ctor_feats(doc, style)
     src = ctor_sql(doc, style)
     exp = ctor_expected(doc, style)
-    clause = "C11.object_construct" if cf["nullpair"] != "no" else "C11.construct"
-    feats = {"source": "ctor", "style": style, "op": "construct", "cause": ctor_cause(cf, style)}
+    cause = ctor_cause(cf, style)
+    clause = "C11.object_construct" if cause in ("nopair", "nullpair.nested", "nullpair.top") else "C11.construct"
+    feats = {"source": "ctor", "style": style, "op": "construct", "cause": cause}
     cells = [{"expr": src, "mode": "json", "exp": exp, "clause": clause, "deps": [], "feats": feats, "key": ("ctor", style, canon(doc), "root")}]
     cells.append({"expr": f"array_size({src})", "mode": "num", "exp": J.array_size(exp), "clause": "C11.array_size", "deps": [0],
                   "feats": {"source": "ctor", "style": style, "op": "array_size", "kind": J.kind_of(exp), "form": "root"},
@@ -1087,7 +1116,7 @@ def ctor_cells(doc, style):
     pf = {"style": style}
     if cf["elems"] == "dec+int":
         pf["elems"] = "dec+int"
-    for c in _path_cells(src, "ctor", exp, relevant_paths(doc, maxlen=2), lambda sy, t: ["raw", "varchar", "array_size"], pf, chained=False):
+    for c in _path_cells(src, "ctor", exp, relevant_paths(doc, maxlen=2), lambda sy, t: ["raw", "varchar"], pf, chained=False):
         c["deps"] = [d + 2 for d in c["deps"]] + [0]
         c["key"] = c["key"] + (style,)
         cells.append(c)
@@ -1122,15 +1151,15 @@ NULLKEY_CASES = [  # (sql, expected document, constructor shape as in ctor_cause
     ("object_construct_keep_null('a', 1, 'B', NULL)", {"a": 1, "B": None}, "nullpair.top"),
     ("object_construct('a', NULL)", {}, "nopair"),
     ("object_construct('a', object_construct('B', NULL, 'a', 1))", {"a": {"a": 1}}, "nullpair.nested"),
-    ("object_construct_keep_null('a', object_construct('B', NULL, 'a', 1))", {"a": {"a": 1}}, "nullpair.nested"),
-    ("object_construct('a', object_construct_keep_null('B', NULL))", {"a": {"B": None}}, "nullpair.nested"),
+    ("object_construct_keep_null('a', object_construct('B', NULL, 'a', 1))", {"a": {"a": 1}}, "nullpair.under_keep_null"),
+    ("object_construct('a', object_construct_keep_null('B', NULL))", {"a": {"B": None}}, "keep_null.nested"),
     ("object_construct()", {}, "nopair"),
     ("object_construct_keep_null()", {}, "nopair"),
     ("array_construct()", [], "plain"),
     ("[]", [], "plain"),
     ("array_construct(NULL)", [None], "plain"),
     ("array_construct(1, NULL, 2)", [1, None, 2], "plain"),
-    ("array_construct(object_construct('a', NULL, 'B', 1), object_construct('a', 2))", [{"B": 1}, {"a": 2}], "nullpair.nested"),
+    ("array_construct(object_construct('a', NULL, 'B', 1), object_construct('a', 2))", [{"B": 1}, {"a": 2}], "nullpair.top"),
 ]
 FLAT_LITERALS = [  # (input expression, its elements, label used in class keys)
     ("parse_json('[3, 1, 2]')", [3, 1, 2], "parse_json.ints"),
@@ -1180,26 +1209,29 @@ def work_misc(item, acc, tier):
         run_cells(cur, acc, cells)
     elif what == "nullkey":
         for sql, exp, cause in NULLKEY_CASES:
-            fn = sql.split("(")[0] if "(" in sql else "array_literal"
+            style = "ock" if sql.startswith(("object_construct_keep_null", "array_construct")) else "oc"
+            if cause == "nopair" and style == "ock":
+                cause = "plain"
             clause = "C11.object_construct" if "object_construct" in sql else "C11.construct"
             cells.append({"expr": sql, "mode": "json", "exp": exp, "clause": clause, "deps": [],
-                          "feats": {"source": "ctor", "op": fn, "cause": cause}, "key": ("nullkey", sql)})  # fmt: skip
+                          "feats": {"source": "ctor", "op": "construct", "style": style, "cause": cause}, "key": ("nullkey", sql)})  # fmt: skip
         run_cells(cur, acc, cells)
     elif what == "split":
         for sep in SPLIT_SEPS:
             x = f"split(s, {_sqlstr(sep)})"
-            nav = lambda p, st: J.navigate(p, st) if p is not None else None  # noqa: E731
+            nav = lambda p, st: J.navigate(p, st) if p is not None else J.MISSING  # noqa: E731
             exprs = [
-                ("split", x, "json", lambda p: p, "C11.split"),
-                ("split[0]", f"{x}[0]", "json", lambda p: nav(p, (0,)), "C11.extract"),
-                ("split[1]::varchar", f"{x}[1]::varchar", "text", lambda p: J.to_text(nav(p, (1,))), "C11.text"),
-                ("array_size(split)", f"array_size({x})", "num", J.array_size, "C11.split"),
+                ("split", x, "json", lambda p: p, None),
+                ("array_size(split)", f"array_size({x})", "num", J.array_size, None),
+                ("raw", f"{x}[0]", "json", lambda p: nav(p, (0,)), 0),
+                ("varchar", f"{x}[1]::varchar", "text", lambda p: J.to_text(nav(p, (1,))), 1),
             ]
             res = run_exprs(cur, acc, [e[1] for e in exprs], ["id"], " from st")
-            for (name, e, mode, ref, clause), r in zip(exprs, res):
+            for (name, e, mode, ref, elem), r in zip(exprs, res):
                 got = _by_id(r[1]) if r[0] == "ok" else None
                 for i, s in enumerate(SPLIT_STRINGS):
-                    exp = ref(J.split(s, sep))
+                    parts = J.split(s, sep)
+                    exp = ref(parts)
                     rr = ("ok", got.get(i, [])) if got is not None else r
                     ok = _judge(mode, exp, rr)
                     acc.count("evaluations")
@@ -1209,7 +1241,13 @@ def work_misc(item, acc, tier):
                     sql = f"select {e} from st"
                     example = ({"sql": sql, "s": s, "expected": repr(exp), "observed": _observed(rr)},
                                _replay_payload(split_setup([i]), sql, enc(mode, exp)))  # fmt: skip
-                    _record(acc, clause, {"source": "split", "op": name, "kind": _skind(s, sep), "form": "col"}, 1, 0 if ok else 1, example)
+                    if elem is None:
+                        clause, feats = "C11.split", {"source": "split", "op": name, "kind": _skind(s, sep), "form": "col"}
+                    else:
+                        tgt = nav(parts, (elem,))
+                        clause = clause_of(name, tgt)
+                        feats = {"source": "split", "fc": "b1", "op": name, "kind": J.kind_of(tgt)}
+                    _record(acc, clause, feats, 1, 0 if ok else 1, example)
             tail = f" from st, lateral flatten(input => split(s, {_sqlstr(sep)})) f"
             fcols = [("flatten(split).value", "f.value", "json", lambda e: e), ("flatten(split).value::varchar", "f.value::varchar", "text", J.to_text)]
             res = run_exprs(cur, acc, [c[1] for c in fcols], ["id"], tail)
@@ -1236,9 +1274,9 @@ def work_misc(item, acc, tier):
                 base = len(cells)
                 cells.append({"expr": x, "mode": "json", "exp": parts, "clause": "C11.split", "deps": [],
                               "feats": {"source": "split", "op": "split", "kind": sk, "form": "lit"}, "key": ("split-lit", s, sep)})  # fmt: skip
-                cells.append({"expr": f"{x}[0]::varchar", "mode": "text", "exp": J.to_text(J.navigate(parts, (0,))) if parts is not None else None,
-                              "clause": "C11.text", "deps": [base], "feats": {"source": "split", "op": "split[0]::varchar", "kind": sk, "form": "lit"},
-                              "key": ("split-lit0", s, sep)})  # fmt: skip
+                tgt = J.navigate(parts, (0,)) if parts is not None else J.MISSING
+                cells.append({"expr": f"{x}[0]::varchar", "mode": "text", "exp": J.to_text(tgt), "clause": clause_of("varchar", tgt), "deps": [base],
+                              "feats": {"source": "split", "fc": "b1", "op": "varchar", "kind": J.kind_of(tgt)}, "key": ("split-lit0", s, sep)})  # fmt: skip
                 cells.append({"expr": f"array_size({x})", "mode": "num", "exp": J.array_size(parts), "clause": "C11.split", "deps": [base],
                               "feats": {"source": "split", "op": "array_size(split)", "kind": sk, "form": "lit"}, "key": ("split-lits", s, sep)})  # fmt: skip
         run_cells(cur, acc, cells)
@@ -1260,8 +1298,7 @@ def work_misc(item, acc, tier):
                     sql = f"select {e}{tail}"
                     example = ({"sql": sql, "expected": repr(exps), "observed": _observed(rr)},
                                _replay_payload([], sql, [enc(mode, x) for x in exps], rows="seq"))  # fmt: skip
-                    feats = {"source": "flatlit", "op": "flatten." + cid, "case": label,
-                             "alias": "yes" if alias else "no"}  # fmt: skip
+                    feats = {"source": "flatlit", "case": label}
                     _record(acc, "C11.flatten", feats, 1, 0 if ok else 1, example)
     else:
         raise core.HarnessError(f"unknown misc item {what}")
@@ -1286,7 +1323,7 @@ def work(item, acc, tier):
 def items_for(tier):
     paths = paths_for(tier)
     items = [("col", "v", pi) for pi in range(len(paths))]
-    items += [("col", s, pi) for s in ("o", "a") for pi, p in enumerate(paths) if len(p) <= 2]
+    items += [("col", s, pi) for s in ("o", "a") for pi, p in enumerate(paths) if len(p) <= (1 if tier == "quick" else 2)]
     items += [("flat", pi) for pi in range(len(paths))]
     items += [("lit", di) for di in range(len(lit_docs_for(tier)))]
     items += [("ctor", di) for di in range(len(ctor_docs_for(tier)))]
@@ -1315,7 +1352,7 @@ def run(ctx: core.Ctx):
         "rows of a single-table LATERAL FLATTEN come out grouped per input row in element order",
     ]
     items = items_for(tier)
-    ctx.pmap(work, items)
+    ctx.pmap(work, items, chunk=1)
     ctx.exhaustive = True
     ctx.extra.update(
         {
